@@ -487,3 +487,38 @@ SPECS += [
                 "self._update_grid_specs": CSOM, "self._check_and_set_out_mask": CSOM},
          drop_assign=["request", "in_info", "self.input_meta", "self.transformer", "msg"], props=["C07", "C16"]),
 ]
+
+
+# ---- sdk/output.py : the spill files of an output (C10) -------------------------------------------------------------
+# A stored entry (`Val`) is a quantity or a file name; what is on disk is a state `φ` given with its operations
+# (`os.remove`, `np.save` / `MaskedArray.dump`, `np.load`) as parameters, like `nbytes`, `isinstance(x, str)` and the name
+# `os.path.join(memory_location or "", f"{id(self)}-{counter}.npy")` of the next file (`mkFile counter data`).
+FS = "Lean:φ"
+FS_PARAMS = {"isFile": "Lean:(α → Bool)", "nbytes": "Lean:(α → Int)", "fsRemove": "Lean:(φ → α → Except Err φ)"}
+FS_REMOVE = {"lean": "fsRemove", "args": ["self.fs", 0], "stmt": True, "updates": ["fs"]}
+FS_CREATE = {"lean": "fsCreate", "args": ["self.fs", "fn", "data"], "stmt": True, "updates": ["fs"]}
+SPECS += [
+    dict(lean="Output__pack", path="sdk/output.py", qual="Output._pack", group="Spill", type_params=["φ"],
+         fields={"memory_limit": "Opt[Int]", "_total_mem": "Int", "_mem_counter": "Int", "fs": FS}, params={"data": "Val"},
+         extra_params={"nbytes": "Lean:(α → Int)", "isMasked": "Lean:(α → Bool)", "mkFile": "Lean:(Int → α → α)",
+                       "fsCreate": "Lean:(φ → α → α → Except Err φ)"},
+         ret="Val", locals={"fn": "Val"},
+         consts={"data.nbytes": ("(nbytes data)", "Int"),
+                 "os.path.join(self.memory_location or '', f'{id(self)}-{self._mem_counter}.npy')": ("(mkFile self__mem_counter data)", "Val")},
+         conds={"np.ma.isMaskedArray(data.magnitude)": "(isMasked data = true)"},
+         calls={"data.magnitude.dump": FS_CREATE, "np.save": FS_CREATE}, props=["C10"]),
+    dict(lean="Output__unpack", path="sdk/output.py", qual="Output._unpack", group="Spill", type_params=["φ"],
+         fields={"fs": FS}, params={"where": "Val"}, extra_params={"isFile": "Lean:(α → Bool)", "fsLoad": "Lean:(φ → α → Except Err α)"},
+         ret="Val", locals={"data": "Val"}, conds={"isinstance(where_, str)": "(isFile where_ = true)"},
+         calls={"np.load": {"lean": "fsLoad", "args": ["self.fs", 0], "ret": "Val"}, "tools.UNITS.Quantity": "id"}, props=["C10"]),
+    dict(lean="Output__clear_data_files", path="sdk/output.py", qual="Output._clear_data", group="Spill", type_params=["φ"], loop_extras=True,
+         fields={"data": "List[Tuple[Time,Val]]", "_connected_inputs": "Dict[Obj,Opt[Time]]", "_total_mem": "Int", "fs": FS},
+         params={"time": "Time", "target": "Obj"}, extra_params=FS_PARAMS, ret="Unit", locals={"d": "Tuple[Time,Val]"},
+         conds={"isinstance(d[1], str)": "(isFile d.2 = true)"}, consts={"d[1].nbytes": ("(nbytes d.2)", "Int")},
+         calls={"os.remove": FS_REMOVE},
+         fuel={"len(self.data) > 1 and self.data[1][0] <= t_min": "len(self.data)"}, props=["C10"]),
+    dict(lean="Output_finalize", path="sdk/output.py", qual="Output.finalize", group="Spill", type_params=["φ"], loop_extras=True,
+         fields={"data": "List[Tuple[Time,Val]]", "fs": FS}, params={},
+         extra_params={"isFile": "Lean:(α → Bool)", "fsRemove": "Lean:(φ → α → Except Err φ)"}, ret="Unit",
+         conds={"isinstance(d, str)": "(isFile d = true)"}, calls={"os.remove": FS_REMOVE}, props=["C10"]),
+]
